@@ -32,15 +32,22 @@ func (ctl *HTTPGroupController) Register(
 	routeConfig vhost.RouteConfig,
 ) (err error) {
 	indexKey := group
+	// Hold the controller lock until the group has been joined, otherwise the last
+	// member may leave (removing the route and the group) between lookup and join.
 	ctl.mu.Lock()
+	defer ctl.mu.Unlock()
 	g, ok := ctl.groups[indexKey]
 	if !ok {
 		g = NewHTTPGroup(ctl)
 		ctl.groups[indexKey] = g
 	}
-	ctl.mu.Unlock()
 
-	return g.Register(proxyName, group, groupKey, routeConfig)
+	err = g.Register(proxyName, group, groupKey, routeConfig)
+	if err != nil && !ok {
+		// don't keep a group without members
+		delete(ctl.groups, indexKey)
+	}
+	return
 }
 
 func (ctl *HTTPGroupController) UnRegister(proxyName, group string, _ vhost.RouteConfig) {
